@@ -470,6 +470,101 @@ def setup_subject():
     return _st
 
 
+SIG_GI = {'gint': 'gint', 'guint': 'guint', 'gdouble': 'gdouble', 'gchararray': 'utf8', 'gpointer': 'gpointer', 'GObject': 'GObject.Object', 'void': 'none',
+          'GStrv': None}
+
+
+def gen_signals(rng, n):
+    """signals of the class FooVobj (types come from the runtime dump, annotations from a 'FooVobj::name' block); only
+    annotations that are valid at their site, each with the attribute the documentation gives it"""
+    sigs = []
+    for k in range(n):
+        ret = rng.choice(['void', 'void', 'gint', 'gchararray', 'gpointer', 'GObject'])
+        ptypes = [rng.choice(['gint', 'guint', 'gdouble', 'gchararray', 'gpointer', 'GObject']) for _ in range(rng.choice([0, 1, 2, 3]))]
+        names = ['arg%d' % i for i in range(len(ptypes))]
+        exp = []          # (site name or None for the return value, what, expected)
+        anns = {nm: [] for nm in names}
+        anns[None] = []
+        ints = [nm for nm, t in zip(names, ptypes) if t in ('gint', 'guint')]
+        for nm, t in list(zip(names, ptypes)) + [(None, ret)]:
+            if t in ('gchararray', 'gpointer', 'GObject') and rng.random() < 0.5:
+                anns[nm].append('(nullable)')
+                exp.append((nm, 'attr', ('nullable', '1')))
+            if t == 'gpointer' and ints and rng.random() < 0.6:
+                ln = rng.choice(ints)
+                anns[nm].append('(array length=%s) (element-type guint8)' % ln)
+                exp.append((nm, 'array-length', names.index(ln)))
+                if nm is None:
+                    anns[nm].append('(transfer none)')
+            elif t == 'gpointer' and rng.random() < 0.4:
+                ty = rng.choice(['utf8', 'GObject.Object'])
+                anns[nm].append('(type %s)' % ty)
+                exp.append((nm, 'type', ty))
+            if nm is None and t in ('gchararray', 'GObject') and rng.random() < 0.6:
+                tr = rng.choice(['full', 'none'])
+                anns[nm].append('(transfer %s)' % tr)
+                exp.append((nm, 'attr', ('transfer-ownership', tr)))
+            if rng.random() < 0.3 and (nm is not None or t != 'void'):
+                anns[nm].append('(attributes vt.s%d=v%d)' % (k, k))
+                exp.append((nm, 'attribute', ('vt.s%d' % k, 'v%d' % k)))
+        sigs.append({'name': 'sg%d' % k, 'ret': ret, 'ptypes': ptypes, 'pnames': names, 'anns': anns, 'exp': exp})
+    return sigs
+
+
+def render_signals(sigs):
+    d, blocks = [], []
+    for sg in sigs:
+        d.append('    <signal name="%s" return="%s" when="last">' % (sg['name'], sg['ret']))
+        for t in sg['ptypes']:
+            d.append('      <param type="%s"/>' % t)
+        d.append('    </signal>')
+        L = ['/**', ' * FooVobj::%s:' % sg['name'], ' * @self: the object']
+        for nm in sg['pnames']:
+            L.append(' * @%s: %sa parameter' % (nm, (' '.join(sg['anns'][nm]) + ': ') if sg['anns'][nm] else ''))
+        L += [' *', ' * Signal %s.' % sg['name']]
+        if sg['ret'] != 'void':
+            L += [' *', ' * Returns: %sthe result' % ((' '.join(sg['anns'][None]) + ': ') if sg['anns'][None] else '')]
+        L.append(' */')
+        blocks.append('\n'.join(L))
+    return '\n'.join(d), '\n\n'.join(blocks) + '\n'
+
+
+def judge_signals(ns, sigs, res, replay):
+    cls = [n for n in ns.findall('class') if n.get('glib:type-name') == 'FooVobj']
+    if not cls:
+        res['viol'].append(('signal:class-missing', 'class FooVobj missing', replay))
+        return
+    for sg in sigs:
+        nodes = [n for n in cls[0].findall('glib:signal') if n.get('name') == sg['name']]
+        if len(nodes) != 1:
+            res['viol'].append(('signal:missing', 'signal %s: %d elements' % (sg['name'], len(nodes)), replay))
+            continue
+        n = nodes[0]
+        _, ps = girx.params_of(n)
+        if [p.get('name') for p in ps] != sg['pnames']:
+            res['viol'].append(('signal:parameter-names', 'signal %s: parameters %r, block names them %r' % (sg['name'], [p.get('name') for p in ps], sg['pnames']), replay))
+            continue
+        for nm, what, val in sg['exp']:
+            site = n.find('return-value') if nm is None else ps[sg['pnames'].index(nm)]
+            where = 'signal FooVobj::%s %s [%s]' % (sg['name'], 'return value' if nm is None else 'parameter ' + nm, ' '.join(sg['anns'][nm]))
+            res['hits']['signal_annotation_judged'] += 1
+            if what == 'attr':
+                if site.get(val[0]) != val[1]:
+                    res['viol'].append(('signal:%s' % val[0], '%s: %s=%r, documented %r' % (where, val[0], site.get(val[0]), val[1]), replay))
+            elif what == 'attribute':
+                got = [(a.get('name'), a.get('value')) for a in site.findall('attribute')]
+                if val not in got:
+                    res['viol'].append(('signal:attributes', '%s: attributes %r' % (where, got), replay))
+            elif what == 'type':
+                t = girx.type_of(site)
+                if t is None or t.get('name') != val:
+                    res['viol'].append(('signal:type', '%s: type %r' % (where, t.get('name') if t is not None else None), replay))
+            elif what == 'array-length':
+                t = girx.type_of(site)
+                if t is None or t.tag != 'array' or t.get('length') != str(val):
+                    res['viol'].append(('signal:array-length', '%s: %s length=%r, documented index %d' % (where, t.tag if t is not None else None, t.get('length') if t is not None else None, val), replay))
+
+
 def run_case(case):
     seed, idx = case
     st = setup_subject()
@@ -485,10 +580,14 @@ def run_case(case):
         groups.append((g, emitted, annlist))
     m0 = dict(scan.mech)
     dump = None
-    if getattr(hdr, 'vmembers', None):
+    sigs = gen_signals(rng, rng.choice([1, 2, 3])) if idx % 2 == 0 else []
+    if getattr(hdr, 'vmembers', None) or sigs:
+        sdump, sblocks = render_signals(sigs)
+        if sigs:
+            src.add(sblocks)
         hdr.add('typedef struct _FooVobj FooVobj;\ntypedef struct _FooVobjClass FooVobjClass;\nstruct _FooVobj {\n  GObject parent_instance;\n};\n'
-                'struct _FooVobjClass {\n  GObjectClass parent_class;\n%s\n};\nGType foo_vobj_get_type (void);' % '\n'.join(hdr.vmembers))
-        dump = '<?xml version="1.0"?>\n<dump>\n  <class name="FooVobj" get-type="foo_vobj_get_type" parents="GObject">\n  </class>\n</dump>\n'
+                'struct _FooVobjClass {\n  GObjectClass parent_class;\n%s\n};\nGType foo_vobj_get_type (void);' % '\n'.join(getattr(hdr, 'vmembers', None) or ['  gpointer pad;']))
+        dump = '<?xml version="1.0"?>\n<dump>\n  <class name="FooVobj" get-type="foo_vobj_get_type" parents="GObject">\n%s\n  </class>\n</dump>\n' % sdump
     lib = apigen.library(headers=[(hdr.filename, hdr.text())], sources=[(src.filename, src.text())], **({'dump': dump} if dump else {}))
     r = scan.scan(lib)
     res = {'mech': {}, 'hits': collections.Counter(), 'classes': [], 'viol': []}
@@ -511,6 +610,8 @@ def run_case(case):
             for (fn, line, col) in e['positions']:
                 if fn == '/src/foo.c':
                     warn_lines[line] += 1
+    if sigs:
+        judge_signals(ns, sigs, res, replay)
     for g, emitted, annlist in groups:
         sites = g['params'] + [g['ret']]
         pindex = {p['name']: i for i, p in enumerate(g['params'])}
